@@ -457,7 +457,7 @@ func writeReplay(path, id string, h HarnessConf, v *interp.Violation) {
 	}
 	r := map[string]any{
 		"property": id, "package": h.Pkg, "harness": v.Harness, "obligation": h.Obligation, "label": v.Label, "kind": v.Kind,
-		"msg": v.Msg, "known_finding": v.KF, "inputs": ins, "decisions": v.Decisions, "trace": v.Trace,
+		"msg": v.Msg, "known_finding": v.KF, "inputs": ins, "decisions": v.Decisions, "trace": v.Trace, "images": v.Images,
 	}
 	b, _ := json.MarshalIndent(r, "", " ")
 	os.WriteFile(path, b, 0o644)
